@@ -137,13 +137,15 @@ def dct_k(items):
     return b
 
 
-def ilist(dim, lo=0):
-    """python list of ints of symbolic length"""
+def ilist(dim, lo=0, enum=None):
+    """python list of ints (or members of the Enum class `enum`, as integer codes) of symbolic length"""
     def b(c, label):
         n = c.path.new_dim(dim, lo)
-        arr = z3.Array(f'{c.tag}{label}', I, I)
-        s = SList(arr, n, label=label)
+        f = z3.Function(f'{c.tag}{label}', I, I)
+        s = SList(None, n, label=label)
+        s.fn = lambda i: f(i)
         s._input = dim
+        s.enum = enum
         return s
     b.recipe = ('ilist', dim)
     return b
